@@ -11,7 +11,7 @@ import traceback
 from harness import scenarios
 
 CLASSES_FOR = {
-    'C01': ['IntersperseDataset', 'NumpySerializedList', 'CacheDataset', 'ListDataset', 'DictDataset', 'MapDataset', 'SliceDataset', 'ConcatenateDataset', 'ZipDataset',
+    'C01': ['IntersperseDataset', 'NumpySerializedList', 'CacheDataset', 'FromDataset', 'ListDataset', 'DictDataset', 'MapDataset', 'SliceDataset', 'ConcatenateDataset', 'ZipDataset',
             'KeyZipDataset', 'ItemsDataset', 'BatchDataset', 'UnbatchDataset', 'FilterDataset',
             'CatchExceptionDataset'],
     'C02': ['IntersperseDataset', 'NumpySerializedList', 'CacheDataset', 'ListDataset', 'DictDataset', 'MapDataset', 'SliceDataset', 'ConcatenateDataset', 'ZipDataset',
@@ -19,6 +19,8 @@ CLASSES_FOR = {
     'C03': ['IntersperseDataset', 'DictDataset', 'MapDataset', 'SliceDataset', 'ConcatenateDataset', 'KeyZipDataset', 'ItemsDataset',
             'FilterDataset', 'CatchExceptionDataset'],
     'C14': ['FilterDataset', 'CatchExceptionDataset'],
+    # the stages the algebraic laws rest on
+    'C16': ['MapDataset', 'SliceDataset', 'ConcatenateDataset', 'BatchDataset', 'UnbatchDataset', 'FilterDataset', 'CacheDataset'],
 }
 
 
@@ -161,6 +163,9 @@ def _concat_keys(tier):
 EXTRA_MORE = {
     'C02': [('bounded-offered-lengths', _mk('offered_lengths', 'sources of 0,1,2,5,8 examples; lazy apply (slice / eager filter / tile / shuffle), filter, catch, unbatch, reshuffle, local shuffle, prefetch, dynamic buckets, each also under map / batch / local shuffle: len() is refused or equals the iteration count')),
             ('bounded-numpy-indices', _mk('numpy_indices', '18 pipelines over 300 examples, 28 boundary indices, np.int8/uint8/int16 (quick) plus uint16/int32/int64 (thorough): ds[dtype(i)] equals ds[int(i)]'))],
+    'C04': [('bounded-parallel-equals-sequential', _mk('parallel_equals_sequential', 'thread backend; n in {0,1,2,5,9} (.. 12), workers 1..2 (3), buffers 1,2,4 (1..7); map(num_workers), prefetch, seeded reshuffle / shared-reshuffle tile below prefetch, stacked; values and items; 3 epochs; lengths'))],
+    'C11': [('bounded-diskcache-lifecycles', _mk('diskcache_lifecycles', 'cache_dir given / None x clear x {copy outlives original, original outlives copy, no copy} x {0, 2, all of 4 examples read}; release by garbage collection; reopen with reuse=False (refused) and reuse=True (no recomputation)'))],
+    'C13': [('bounded-prefetch-determinism', _mk('parallel_equals_sequential', 'as for C04: seeded per-epoch reshuffles below prefetch / parallel map reproduce the sequential epochs'))],
     'C09': [('bounded-isolation-more', _mk('isolation_more', 'example shapes dict / tuple / namedtuple / list with mutable parts; pickle, copy, wu, memory and disk cache; mutation inside a running first-epoch loop, over items(), through a copy, after an aborted epoch, after the next example was requested; re-read by iteration, index, copy')),
             ('bounded-isolation', _mk('isolation', 'new/from_list in pickle, copy, wu mode and memory/disk cache; 7 access paths, miss and hit, nested in-place mutations'))],
     'C10': [('bounded-cache-histories', _mk('cache_histories', 'all access histories of length 2 (3 thorough) over 17 operations on a 4-example cache with a freshly random upstream; memory threshold crossed after 0..4 stores'))],
@@ -175,8 +180,21 @@ EXTRA_MORE = {
 EXTRA_INIT = [('bounded-intersperse-init', _intersperse_init)]
 EXTRA_KEYS = [('bounded-keyzip-init', _keyzip_init), ('bounded-concatenate-keys', _concat_keys)]
 
-EXTRA = {'C16': [('bounded-laws', _laws)], 'C08': [('bounded-demand', _effects)], 'C17': [('bounded-bucket-iter', _bucket)], 'C12': [('bounded-shuffles', _shuffle)],
-         'C13': [('bounded-seed-determinism', _shuffle)]}
+_C13_CLAUSES = {'seed-determinism', 'copy-determinism', 'frozen-stays-frozen', 'prefetch-determinism',
+                'copy-of-a-pipeline-sharing-one-reshuffle-object'}
+
+
+def _shuffle_for(c13):
+    # one search, two properties: each reports only the clauses that belong to it
+    def run(tier):
+        c, f, b = _shuffle(tier)
+        f = [x for x in f if (x['mismatches'][0]['clause'] in _C13_CLAUSES) == c13]
+        return c, f, b
+    return run
+
+
+EXTRA = {'C16': [('bounded-laws', _laws)], 'C08': [('bounded-demand', _effects)], 'C17': [('bounded-bucket-iter', _bucket)],
+         'C12': [('bounded-shuffles', _shuffle_for(False))], 'C13': [('bounded-seed-determinism', _shuffle_for(True))]}
 
 
 def known_finding_of(cls, mismatch, findings):
